@@ -957,8 +957,8 @@ class _Gen:
         codes = []
         for _ in range(r.choice([0, 1, 1, 2, 2, 3])):
             c = r.choice(["200", "201", "204", "301", "400", "403", "100", "599", "202"])
-            if c in codes:
-                continue
+            if c in codes and r.random() < 0.5:
+                continue        # (the other half: the same code twice in one method - responses are a list, not a map)
             codes.append(c)
             x = Response(c, self.annotation(0.4))
             m.responses.append(self.body_of(x, owner + "_" + c))
